@@ -74,6 +74,7 @@ type Knobs struct {
 	SingleTerm    bool // at most one required node-affinity term (no OR alternatives)
 	FriendlyPools bool // fewer taints / requirements so that several pools can host a pod
 	EasyPods      bool // mostly small pods with few selectors
+	MoreInitialized bool // bias existing nodes to initialized, healthy, managed ones (disruption worlds)
 }
 
 func DefaultKnobs() Knobs {
@@ -538,7 +539,7 @@ func availableOptions(cat []sim.ITSpec) []sim.LaunchOption {
 	return out
 }
 
-func Node(t *rapid.T, i int, cat []sim.ITSpec, pools []*v1.NodePool) sim.NodeSpec {
+func Node(t *rapid.T, i int, cat []sim.ITSpec, pools []*v1.NodePool, k Knobs) sim.NodeSpec {
 	l := fmt.Sprintf("node%d", i)
 	opts := availableOptions(cat)
 	if len(opts) == 0 || pct(t, 15, l+"_unmanaged") {
@@ -559,7 +560,11 @@ func Node(t *rapid.T, i int, cat []sim.ITSpec, pools []*v1.NodePool) sim.NodeSpe
 	o := pick(t, opts, l+"_opt")
 	pool := pools[rapid.IntRange(0, len(pools)-1).Draw(t, l+"_pool")]
 	n := sim.NodeSpec{Name: fmt.Sprintf("node-%d", i), Pool: pool.Name, TypeName: o.Type.Name, Zone: o.Offering.Zone, CT: o.Offering.CapacityType, OS: o.OS, AgeSeconds: rapid.IntRange(30, 600).Draw(t, l+"_age")}
-	n.Stage = pick(t, []string{sim.StageInitialized, sim.StageInitialized, sim.StageInitialized, sim.StageRegistered, sim.StageUnregistered, sim.StageLaunched, sim.StageLaunched}, l+"_stage")
+	stages := []string{sim.StageInitialized, sim.StageInitialized, sim.StageInitialized, sim.StageRegistered, sim.StageUnregistered, sim.StageLaunched, sim.StageLaunched}
+	if k.MoreInitialized {
+		stages = []string{sim.StageInitialized, sim.StageInitialized, sim.StageInitialized, sim.StageInitialized, sim.StageInitialized, sim.StageRegistered, sim.StageLaunched}
+	}
+	n.Stage = pick(t, stages, l+"_stage")
 	if n.Stage == sim.StageRegistered {
 		n.StartupTaintsLeft = pct(t, 60, l+"_startupLeft")
 		if pct(t, 25, l+"_zero") {
@@ -607,10 +612,17 @@ func World(t *rapid.T, k Knobs) *SchedWorld {
 	for i := 0; i < np; i++ {
 		w.Pools = append(w.Pools, Pool(t, i, k))
 	}
+	// most clusters have one general-purpose pool: keep scheduling success frequent enough to be informative
+	if pct(t, 55, "openPool") {
+		p := w.Pools[rapid.IntRange(0, np-1).Draw(t, "openPoolIdx")]
+		p.Spec.Template.Spec.Taints = nil
+		p.Spec.Template.Spec.Requirements = nil
+		p.Spec.Limits = nil
+	}
 	nn := rapid.IntRange(0, k.MaxNodes).Draw(t, "nNodes")
 	boundIdx := 0
 	for i := 0; i < nn; i++ {
-		n := Node(t, i, w.Catalog, w.Pools)
+		n := Node(t, i, w.Catalog, w.Pools, k)
 		w.Nodes = append(w.Nodes, n)
 		if n.Stage == sim.StageLaunched || n.Stage == sim.StageUnlaunched {
 			continue
